@@ -64,6 +64,7 @@ var (
 	// to avoid declaration cycle
 	tmp = [pr.NbProperties]computerFunc{
 		pr.PBackgroundImage:    backgroundImage,
+		pr.PBorderImageSource:  borderImageSource,
 		pr.PBackgroundPosition: backgroundPosition,
 		pr.PObjectPosition:     objectPosition,
 		pr.PTransformOrigin:    transformOrigin,
@@ -169,6 +170,15 @@ func init() {
 }
 
 type computerFunc = func(*ComputedStyle, pr.KnownProp, pr.CssProperty) pr.CssProperty
+
+// borderImageSource computes lenghts in a gradient border-image-source.
+func borderImageSource(computer *ComputedStyle, name pr.KnownProp, value pr.CssProperty) pr.CssProperty {
+	image, ok := value.(pr.Image)
+	if !ok {
+		return value
+	}
+	return backgroundImage(computer, name, pr.Images{image}).(pr.Images)[0]
+}
 
 // backgroundImage computes lenghts in gradient background-image.
 func backgroundImage(computer *ComputedStyle, _ pr.KnownProp, _value pr.CssProperty) pr.CssProperty {
@@ -456,8 +466,12 @@ func borderImageSlice(_ *ComputedStyle, _ pr.KnownProp, _value pr.CssProperty) p
 }
 
 // Compute the “border-image-width“ property.
-func borderImageWidth(_ *ComputedStyle, _ pr.KnownProp, _value pr.CssProperty) pr.CssProperty {
-	values := _value.(pr.Values)
+func borderImageWidth(computer *ComputedStyle, _ pr.KnownProp, _value pr.CssProperty) pr.CssProperty {
+	values := append(pr.Values(nil), _value.(pr.Values)...) // (a copy: the declared value is shared)
+	for i, value := range values {
+		// numbers, percentages and auto are kept, lengths are made absolute
+		values[i] = length_(computer, value, -1, false)
+	}
 	switch len(values) {
 	case 1:
 		return values.Repeat(4)
